@@ -145,12 +145,20 @@ fn new_writer(index: &Index, cfg: &Cfg) -> tantivy::Result<IndexWriter<TantivyDo
 /// results of the API calls; after a failed call the writer is dropped and re-opened
 /// (`recover_by_rollback` = try rollback first).
 pub fn run_history(vd: &VerifDirectory, ops: &[Op], cfg: &Cfg, recover_by_rollback: bool) -> RunResult {
+    run_history_on(vd, None, ops, cfg, recover_by_rollback)
+}
+
+/// Same, on an index that already exists (`existing`), e.g. one that reader threads are watching.
+pub fn run_history_on(vd: &VerifDirectory, existing: Option<Index>, ops: &[Op], cfg: &Cfg, recover_by_rollback: bool) -> RunResult {
     let (schema, f) = schema();
     let mut res = RunResult { index: None, commits: vec![], attempted: vec![], api: vec![], panicked: None, committed: BTreeSet::new() };
-    let index = match guarded(|| Index::create(vd.clone(), schema.clone(), IndexSettings::default())) {
-        Ok(Ok(ix)) => ix,
-        Ok(Err(e)) => { res.api.push(ApiObs { op_index: 0, what: "create", ok: false, err: format!("{e}"), log_seq: vd.log_len() }); return res; }
-        Err(p) => { res.panicked = Some(p); return res; }
+    let index = match existing {
+        Some(ix) => ix,
+        None => match guarded(|| Index::create(vd.clone(), schema.clone(), IndexSettings::default())) {
+            Ok(Ok(ix)) => ix,
+            Ok(Err(e)) => { res.api.push(ApiObs { op_index: 0, what: "create", ok: false, err: format!("{e}"), log_seq: vd.log_len() }); return res; }
+            Err(p) => { res.panicked = Some(p); return res; }
+        },
     };
     vd.mark("created");
     res.index = Some(index.clone());
@@ -266,9 +274,16 @@ pub fn run_history(vd: &VerifDirectory, ops: &[Op], cfg: &Cfg, recover_by_rollba
 
 /// ids of the live documents of a freshly loaded searcher (through the `id` fast field)
 pub fn read_ids(index: &Index) -> Result<BTreeSet<u64>, String> {
-    let r = guarded(|| -> tantivy::Result<BTreeSet<u64>> {
+    let r = guarded(|| -> tantivy::Result<tantivy::Searcher> {
         let reader = index.reader_builder().reload_policy(ReloadPolicy::Manual).try_into()?;
-        let searcher = reader.searcher();
+        Ok(reader.searcher())
+    });
+    match r { Ok(Ok(s)) => searcher_ids(&s), Ok(Err(e)) => Err(format!("{e}")), Err(p) => Err(format!("panic: {p}")) }
+}
+
+/// ids of the live documents a searcher sees (fast field `id`), cross-checked with an AllQuery
+pub fn searcher_ids(searcher: &tantivy::Searcher) -> Result<BTreeSet<u64>, String> {
+    let r = guarded(|| -> tantivy::Result<BTreeSet<u64>> {
         let mut out = BTreeSet::new();
         let mut n = 0usize;
         for sr in searcher.segment_readers() {
